@@ -781,6 +781,9 @@ class Interp:
                         else:
                             parts.append(x)
                     return code_of(*parts)
+            if isinstance(a, Code) and fmt is None and any(isinstance(q, Part) and q.kind != 'opaque' for q in a.parts):
+                # generated text that already contains translated / quoted parts is scanned by a formatter again
+                return code_of(Part('opaque', 'REFORMAT:%-formatting applied to text that already contains translated parts', node=node))
             return code_of(Part('opaque', '%-format', node=node))
         return NumV('bin', (sym, self._num(a), self._num(b)))
 
@@ -1532,6 +1535,8 @@ class Interp:
                         else:
                             parts.append(self.to_code(val, node, conv='r' if conv in ('r', 'a') else ''))
                     return code_of(*parts)
+                if isinstance(recv, Code) and any(isinstance(q, Part) and q.kind != 'opaque' for q in recv.parts):
+                    return code_of(Part('opaque', 'REFORMAT:str.format applied to text that already contains translated parts', node=node))
                 return code_of(Part('opaque', 'str.format', node=node))
             if name in ('replace', 'split', 'splitlines', 'partition', 'zfill', 'ljust', 'rjust', 'encode'):
                 if isinstance(recv, Const) and all(isinstance(a, Const) for a in args):
